@@ -126,6 +126,78 @@ func build(dir string, es []entry, order int) {
 	}
 }
 
+// adminRecordVariants: "at least one .admin file holds a supported hash" for every clear-cut way a
+// record of either algorithm can fail to be one - as the only administrator (Check must refuse)
+// and next to a proper administrator (Check must accept).
+func adminRecordVariants(root string) {
+	dir := filepath.Join(root, "adminvar")
+	for _, set := range []uint{1, 2} {
+		gen := verifx.CheapDir(filepath.Join(root, "gen-adminvar"), set)
+		os.RemoveAll(gen.BaseDir)
+		os.MkdirAll(gen.BaseDir, 0700) //nolint:errcheck
+		if err := gen.AddUser("adm", "admpw", true); err != nil {
+			fmt.Fprintln(os.Stderr, err)
+			os.Exit(2)
+		}
+		gen.AddUser("usr", "usrpw", false)  //nolint:errcheck
+		gen.AddUser("good", "goodpw", true) //nolint:errcheck
+		rec, _ := os.ReadFile(filepath.Join(gen.BaseDir, "adm.admin"))
+		usr, _ := os.ReadFile(filepath.Join(gen.BaseDir, "usr.user"))
+		good, _ := os.ReadFile(filepath.Join(gen.BaseDir, "good.admin"))
+		f := strings.Split(strings.TrimSuffix(string(rec), "\n"), ":")
+		join := func(g ...string) string { return strings.Join(g, ":") + "\n" }
+		other := "hmac_sha256_scrypt"
+		if set == 2 {
+			other = "argon2id"
+		}
+		variants := map[string]string{
+			"empty-digest":        join(f[0], f[1], f[2], f[3], ""),
+			"empty-salt":          join(f[0], f[1], f[2], "", f[4]),
+			"empty-salt-and-hash": join(f[0], f[1], f[2], "", ""),
+			"digest-not-base64":   join(f[0], f[1], f[2], f[3], "!!!!"),
+			"salt-not-base64":     join(f[0], f[1], f[2], "!!!!", f[4]),
+			"unknown-set":         join(f[0], f[1], "99", f[3], f[4]),
+			"set-zero":            join(f[0], f[1], "0", f[3], f[4]),
+			"other-algorithm":     join(other, f[1], f[2], f[3], f[4]),
+			"no-algorithm":        join("", f[1], f[2], f[3], f[4]),
+			"four-fields":         join(f[0], f[1], f[2], f[3]),
+			"three-fields":        join(f[0], f[1], f[2]),
+			"only-newline":        "\n",
+			"empty-file":          "",
+		}
+		for name, content := range variants {
+			for _, withGood := range []bool{false, true} {
+				os.RemoveAll(dir)
+				os.MkdirAll(dir, 0700) //nolint:errcheck
+				os.WriteFile(filepath.Join(dir, "adm.admin"), []byte(content), 0600) //nolint:errcheck
+				os.WriteFile(filepath.Join(dir, "usr.user"), usr, 0600)              //nolint:errcheck
+				if withGood {
+					os.WriteFile(filepath.Join(dir, "good.admin"), good, 0600) //nolint:errcheck
+				}
+				var err error
+				func() {
+					defer func() {
+						if r := recover(); r != nil {
+							err = nil
+							ev.Violation("check-panic", fmt.Sprintf("Check panicked on an admin record variant %s (set %d): %v", name, set, r), name)
+						}
+					}()
+					err = verifx.CheapDir(dir, set).Check()
+				}()
+				ev.Add("evaluations", 1)
+				ev.Distinct(fmt.Sprintf("adminvar|%d|%s|%v|%v", set, name, withGood, err == nil))
+				if (err == nil) != withGood {
+					k := "check-accepts-invalid:only-admin-record-"
+					if withGood {
+						k = "check-rejects-valid:second-admin-record-"
+					}
+					ev.Violation(k+name, fmt.Sprintf("Check()=%v on {adm.admin(%s, %s), usr.user(supported)%s}", err, verifx.FormatOfSet(set), name, map[bool]string{true: ", good.admin(supported)", false: ""}[withGood]), map[string]any{"variant": name, "set": set, "with_good_admin": withGood})
+				}
+			}
+		}
+	}
+}
+
 func desc(es []entry) string {
 	var s []string
 	for _, e := range es {
@@ -177,7 +249,8 @@ func main() {
 		}
 	}
 	rec(0, nil)
-	ev.Rule = fmt.Sprintf("all %d consistent subsets of size <= %d of a menu of %d directory entries ({a,b} x {.user,.admin,.txt,none} x {supported,unsupported,empty}; a.user/ and b.admin/ as directories; .tmp as empty dir, non-empty dir, file; .tmpx; a sub-directory), each created in both orders; Check and Init vs. reference predicates; built binary on invalid directories; distinct = distinct (directory shape, Check verdict, Init verdict)", len(sets), maxSize, len(m))
+	ev.Rule = fmt.Sprintf("all %d consistent subsets of size <= %d of a menu of %d directory entries ({a,b} x {.user,.admin,.txt,none} x {supported,unsupported,empty}; a.user/ and b.admin/ as directories; .tmp as empty dir, non-empty dir, file; .tmpx; a sub-directory), each created in both orders; Check and Init vs. reference predicates; 13 clear-cut unsupported admin-record variants x 2 algorithms as only / second administrator; built binary on invalid directories; distinct = distinct (directory shape, Check verdict, Init verdict)", len(sets), maxSize, len(m))
+	adminRecordVariants(root)
 	dirs := make([]string, verifx.NCPU())
 	for i := range dirs {
 		dirs[i] = filepath.Join(root, fmt.Sprintf("w%d", i))
